@@ -26,12 +26,15 @@ import (
 	"sort"
 	"strings"
 	"sync"
+	"syscall"
 	"time"
 
+	"github.com/fatedier/frp/pkg/config"
 	v1 "github.com/fatedier/frp/pkg/config/v1"
 	"github.com/fatedier/frp/pkg/msg"
 	netpkg "github.com/fatedier/frp/pkg/util/net"
 	"github.com/fatedier/frp/pkg/util/util"
+	"github.com/fatedier/frp/server"
 	"golang.org/x/net/websocket"
 	"verifharness/hx"
 )
@@ -41,6 +44,14 @@ var drivers = map[string]hx.DriverFn{"alloc": runAlloc, "barrage": runBarrage, "
 func main() {
 	if len(os.Args) >= 2 && os.Args[1] == "serve" {
 		serve(os.Args[2:])
+		return
+	}
+	if len(os.Args) >= 2 && os.Args[1] == "serveini" {
+		serveINI(os.Args[2:])
+		return
+	}
+	if len(os.Args) >= 2 && os.Args[1] == "vnetplugin" {
+		vnetPluginMain(os.Args[2:])
 		return
 	}
 	if len(os.Args) >= 2 && os.Args[1] == "client" {
@@ -54,6 +65,9 @@ func main() {
 
 func serve(args []string) {
 	hx.Quiet()
+	// few descriptors: connections or sockets the server keeps although it should have let go of them exhaust the limit
+	// within a check, and the watchdog notices
+	_ = syscall.Setrlimit(syscall.RLIMIT_NOFILE, &syscall.Rlimit{Cur: 1024, Max: 1024})
 	addr := args[0]
 	maxPool := int64(5)
 	if len(args) > 1 {
@@ -95,6 +109,48 @@ func serve(args []string) {
 	fmt.Printf("READY %d %d %d %d %d\n", s.Port, s.Cfg.VhostHTTPPort, sshPort, s.Cfg.TCPMuxHTTPConnectPort, s.Cfg.VhostHTTPSPort)
 	_, _ = io.Copy(io.Discard, os.Stdin)
 	s.Close()
+}
+
+// serveINI: an frps configured by a LEGACY ini file through the real loader (pkg/config LoadServerConfig ->
+// legacy conversion): c16 serveini <addr> <max_pool_count> <dir for the file>.
+func serveINI(args []string) {
+	hx.Quiet()
+	addr, maxPool, dir := args[0], args[1], args[2]
+	fail := func(err error) {
+		fmt.Println("ERR", err)
+		os.Exit(3)
+	}
+	d, err := os.MkdirTemp(dir, "c16ini")
+	if err != nil {
+		fail(err)
+	}
+	defer os.RemoveAll(d)
+	port := hx.FreePort(addr)
+	ini := fmt.Sprintf("[common]\nbind_addr = %s\nproxy_bind_addr = %s\nbind_port = %d\ntoken = %s\ntcp_mux = false\nmax_pool_count = %s\nlog_file = /dev/null\nlog_level = error\n",
+		addr, addr, port, hx.DefaultToken, maxPool)
+	path := filepath.Join(d, "frps.ini")
+	if err := os.WriteFile(path, []byte(ini), 0o600); err != nil {
+		fail(err)
+	}
+	cfg, legacy, err := config.LoadServerConfig(path, false)
+	if err != nil || !legacy {
+		os.RemoveAll(d)
+		fail(fmt.Errorf("legacy ini not loaded: legacy=%v err=%v", legacy, err))
+	}
+	svc, err := server.NewService(cfg)
+	if err != nil {
+		os.RemoveAll(d)
+		fail(err)
+	}
+	ctx, cancel := context.WithCancel(context.Background())
+	go svc.Run(ctx)
+	for i := 0; i < 100 && !hx.TCPBound(addr, port); i++ {
+		time.Sleep(10 * time.Millisecond)
+	}
+	fmt.Printf("READY %d 0 0 0 0\n", port)
+	_, _ = io.Copy(io.Discard, os.Stdin)
+	cancel()
+	_ = svc.Close()
 }
 
 type child struct {
@@ -237,7 +293,15 @@ func runAlloc(cfg *hx.RunCfg) error {
 	distinct := map[string]bool{}
 	pools := []int64{0, 1, 2, 3, 5, 6, 7, 50, 1000, math.MaxInt32, math.MaxInt64, -1, -9, -10, -11, -12, -100, math.MinInt32, math.MinInt64}
 	// one child per server maximum, run side by side (they are independent; cases are collected in the old order)
-	maxima := []int{1, 3, 5, 50} // 0 would be replaced by the default 5 in ServerConfig.Complete
+	// the last child gets its maximum (2) from a LEGACY ini file through the real loader instead of a ServerConfig value
+	maxima := []int{1, 3, 5, 50, 2} // 0 would be replaced by the default 5 in ServerConfig.Complete
+	iniDir := ""
+	if cfg.Stats != "" {
+		iniDir = filepath.Dir(cfg.Stats)
+	}
+	if iniDir == "" {
+		maxima = maxima[:4]
+	}
 	type allocOut struct {
 		cases []string
 		fails []map[string]any
@@ -250,7 +314,18 @@ func runAlloc(cfg *hx.RunCfg) error {
 		go func(mi, maxPool int) {
 			defer awg.Done()
 			o := &outs[mi]
-			c, err := startChild(fmt.Sprintf("127.0.16.%d", 10+mi), maxPool)
+			var c *child
+			var err error
+			if mi == 4 {
+				var line string
+				c, line, err = startChildProc("serveini", fmt.Sprintf("127.0.16.%d", 10+mi), fmt.Sprint(maxPool), iniDir)
+				if err == nil {
+					c.addr = fmt.Sprintf("127.0.16.%d", 10+mi)
+					fmt.Sscanf(line, "READY %d", &c.port)
+				}
+			} else {
+				c, err = startChild(fmt.Sprintf("127.0.16.%d", 10+mi), maxPool)
+			}
 			if err != nil {
 				o.err = err
 				return
@@ -302,7 +377,11 @@ func runAlloc(cfg *hx.RunCfg) error {
 		for _, cs := range o.cases {
 			cf.Cases = append(cf.Cases, cs)
 			distinct[cs] = true
-			dist[fmt.Sprintf("max=%d", maxima[mi])]++
+			if mi == 4 {
+				dist[fmt.Sprintf("legacy-ini max=%d", maxima[mi])]++
+			} else {
+				dist[fmt.Sprintf("max=%d", maxima[mi])]++
+			}
 			if len(samples) < 4 {
 				samples = append(samples, cs)
 			}
@@ -988,7 +1067,7 @@ func barrage(cfg *hx.RunCfg, raceMode bool) error {
 	}
 	// directed, last: the ssh tunnel gateway (anonymous ssh clients)
 	if c.alive() && c.ssh > 0 {
-		rounds := 40
+		rounds := 30
 		if cfg.Tier == "thorough" {
 			rounds = 600
 		}
@@ -1003,7 +1082,7 @@ func barrage(cfg *hx.RunCfg, raceMode bool) error {
 				break
 			}
 			wd := true
-			if r%20 == 19 || r == rounds-1 {
+			if r%15 == 14 || r == rounds-1 {
 				var werr error
 				for try := 0; try < 3; try++ {
 					if werr = sshWatchdog(c.addr, c.ssh); werr == nil {
